@@ -8,6 +8,10 @@ ASSUME = [
 
 
 def run(ctx):
+    if ctx.replay:
+        cov = io_ovmb.replay(ctx, "C18")
+        ctx.set_evidence(level="other", coverage=cov, assumptions=ASSUME)
+        return
     cov = io_ovmb.run_c18(ctx)
     cov["explanation"] = ("Lean theorems about the reader/writer models (Ok requires the EOF chunk, short input rejected, chunk loop "
                           "progress, writer Ok only if the sink took the whole file) + truncations, header substitutions, chunk "
